@@ -652,6 +652,11 @@ func TestC11(t *testing.T) {
 	ev.Assume("the 120 s window is only approached to ±10 s; cases longer than 5 s wall are inconclusive")
 	ageDone := make(chan struct{})
 	go func() { c11Ageing(ev, vlib.Scale(150, 2000)); close(ageDone) }()
+	unreadableDone := make(chan struct{})
+	go func() {
+		parallelCases(vlib.Scale(4, 40), 4, func(i int) { c11PeerRecordUnreadable(ev, i) })
+		close(unreadableDone)
+	}()
 	n := vlib.Scale(2000, 60000)
 	parallelCases(n, 12, func(i int) {
 		r := vlib.Rand("C11-store", i)
@@ -705,6 +710,7 @@ func TestC11(t *testing.T) {
 		cleanup()
 	}
 	<-ageDone
+	<-unreadableDone
 	for _, driver := range vlib.Drivers() {
 		c11ManyPeers(ev, driver, 300, 10)
 	}
